@@ -16,6 +16,7 @@ import (
 	"sync"
 	"time"
 
+	"github.com/btcsuite/btcd/btcec/v2"
 	"github.com/elnosh/gonuts/cashu"
 	"github.com/elnosh/gonuts/cashu/nuts/nut10"
 	"github.com/elnosh/gonuts/cashu/nuts/nut11"
@@ -341,6 +342,7 @@ func runP2PK(c *Ctx) {
 		c.Disagree(props, "harness-selfcheck", "by-construction validity differs from btcec verification", f, nil)
 	}
 
+	runP2PKParse(c, w, now, cases, true)
 	runP2PKSigAll(c, w, now)
 	runP2PKHelpers(c, w, now)
 	runP2PKRegressions(c, w, now)
@@ -1161,4 +1163,99 @@ func indexOfLocked(ps cashu.Proofs) int {
 		}
 	}
 	return -1
+}
+
+// ---------------------------------------------------------------- ParseP2PKTags / PublicKeys / IsSigAll values, and the two stdlib models
+
+func runP2PKParse(c *Ctx, w *spendWorld, now int64, cases []*spendCase, stdlib bool) {
+	props := []string{"C12", "C13"}
+	var ops []Sx
+	var impls []string
+	var lbls []string
+	ask := func(op Sx, impl, lbl string) { ops = append(ops, op); impls = append(impls, impl); lbls = append(lbls, lbl) }
+	keyIDs := func(ks []*btcec.PublicKey) Sx {
+		out := make([]Sx, len(ks))
+		for i, k := range ks {
+			out[i] = I(w.keySym(hex.EncodeToString(k.SerializeCompressed())))
+		}
+		return Ls(out)
+	}
+	seen := map[string]bool{}
+	for _, cs := range cases {
+		if seen[cs.proof.Secret] {
+			continue
+		}
+		seen[cs.proof.Secret] = true
+		sec, err := nut10.DeserializeSecret(cs.proof.Secret)
+		if err != nil {
+			continue
+		}
+		e := w.newEnv(now)
+		sx := e.secretSx(cs.proof.Secret)
+		env := e.Sx()
+		tagsSx := sx.(sxList)[3]
+		// ParseP2PKTags: the parsed VALUES
+		pt, err := nut11.ParseP2PKTags(sec.Data.Tags)
+		impl := ""
+		if err != nil {
+			impl = "(err " + spendErrName(err) + ")"
+		} else {
+			impl = Render(L(A("ok"), L(A("tags"), S(pt.Sigflag), I(pt.NSigs), keyIDs(pt.Pubkeys), A(strconv.FormatInt(pt.Locktime, 10)), keyIDs(pt.Refund))))
+		}
+		ask(L(A("spend.tags"), env, tagsSx), impl, "ParseP2PKTags")
+		// PublicKeys
+		pks, err := nut11.PublicKeys(sec)
+		if err != nil {
+			impl = "(err " + spendErrName(err) + ")"
+		} else {
+			impl = Render(L(A("ok"), keyIDs(pks)))
+		}
+		ask(L(A("spend.pubkeys"), env, sx), impl, "PublicKeys")
+		ask(L(A("spend.issigall"), sx), strconv.FormatBool(nut11.IsSigAll(sec)), "IsSigAll")
+	}
+	// strconv.ParseInt(s,10,8|64) and hex.DecodeString: the two standard-library functions the model re-implements
+	r := c.Rng
+	alphabet := []string{"0", "1", "9", "7", "-", "+", "_", " ", "a", "f", "F", "g", "x", ".", "e", "٣", "\x00", "12", "00", "128", "127", "9223372036854775807", "9223372036854775808"}
+	n := 3000
+	if c.Thorough {
+		n = 40000
+	}
+	if !stdlib {
+		n = 0
+	}
+	for i := 0; i < n; i++ {
+		var sb strings.Builder
+		for k := r.Intn(5); k >= 0; k-- {
+			sb.WriteString(alphabet[r.Intn(len(alphabet))])
+		}
+		str := sb.String()
+		if i%50 == 0 {
+			str = ""
+		}
+		bits := []int{8, 64}[r.Intn(2)]
+		v, err := strconv.ParseInt(str, 10, bits)
+		impl := "err"
+		if err == nil {
+			impl = "(ok " + strconv.FormatInt(v, 10) + ")"
+		}
+		ask(L(A("spend.parseint"), S(str), I(bits)), impl, "strconv.ParseInt")
+		b, err := hex.DecodeString(str)
+		impl = "err"
+		if err == nil {
+			xs := make([]Sx, len(b))
+			for j, x := range b {
+				xs[j] = I(int(x))
+			}
+			impl = Render(L(A("ok"), Ls(xs)))
+		}
+		ask(L(A("spend.hex"), S(str)), impl, "hex.DecodeString")
+	}
+	ans := c.Drv.Batch(ops)
+	for i := range ops {
+		c.Case("parse/"+lbls[i]+"/"+strings.SplitN(impls[i], " ", 2)[0], i < 200000)
+		c.Hist("parse/ops", lbls[i])
+		if ans[i] != impls[i] {
+			c.Disagree(props, Render(ops[i]), impls[i], ans[i], nil)
+		}
+	}
 }
